@@ -15,7 +15,9 @@ PHASES = ["fresh", "after-service", "after-failure", "after-partial", "after-par
           "after-partial-interactive", "after-partial-info-response", "after-key-probe", "interactive", "gss-exchange",
           # the GSS-API methods sent raw: server with enable_auth_gssapi() true / false, with / without a GSS kex context
           "gss-keyex-no-context", "gss-keyex-no-context-partial", "gss-keyex-disabled", "gss-keyex-context-app-rejects",
-          "gss-keyex-context-bad-mic", "gss-with-mic-disabled", "gss-with-mic-bad-mechanism"]
+          "gss-keyex-context-bad-mic", "gss-with-mic-disabled", "gss-with-mic-bad-mechanism",
+          # the server has begun a key re-exchange (KEXINIT sent, in_kex) and the client's message is already in flight
+          "fresh+in-kex", "after-failure+in-kex", "after-partial+in-kex"]
 # phases that need a server whose key exchange left a GSS context (Transport(gss_kex=True) over the stub)
 NEEDS_CTX = {"gss-keyex-context-app-rejects", "gss-keyex-context-bad-mic"}
 
@@ -143,10 +145,11 @@ def oracle(ctx, tr):
 
 
 def run(ctx):
-    ctx.rule = ("(a) every type 80..100 x 17 phases (fresh, after service request, after a failed attempt, after a PARTIAL "
+    ctx.rule = ("(a) every type 80..100 x 20 phases (fresh, after service request, after a failed attempt, after a PARTIAL "
                 "success of each method kind - password, validly signed publickey, keyboard-interactive verdict, info "
                 "response - after a key probe, during keyboard-interactive, during GSS exchange, and after raw gssapi-keyex / "
-                "gssapi-with-mic requests against servers with enable_auth_gssapi true/false, with/without a GSS kex context) with structured or random payloads, followed "
+                "gssapi-with-mic requests against servers with enable_auth_gssapi true/false, with/without a GSS kex context; and while the server is in the middle of a key re-exchange it started itself - "
+                "KEXINIT sent, the client's answer held back - fresh / after a failed / after a partial attempt) with structured or random payloads, followed "
                 "by a password attempt; (b) random sessions of 1-12 messages, 45% connection-layer. distinct = distinct "
                 "(message, outcome) sequences; non-trivial = a type 80..100 arrived while the server was alive and "
                 "unauthenticated")
@@ -169,11 +172,20 @@ def run(ctx):
                 gen = L.Gen(rng, "c15", tables)
 
                 def mk(sid, gen=gen, phase=phase, p=p):
-                    steps = phase_prefix(gen, phase, sid)
+                    steps = phase_prefix(gen, phase.split("+")[0], sid)
+                    if phase.endswith("+in-kex"):
+                        st = L.mk_step(gen, 2, b"", meta={"kind": "server-rekey-start"})
+                        st["op"] = "server-rekey-start"
+                        steps.append(st)
                     q, payload, tok, meta = gen.conn_message()
                     while q != p:
                         q, payload, tok, meta = gen.conn_message()
                     steps.append(L.mk_step(gen, p, payload, {"r_chan": 0, "r_fwd": 4022, "r_global": True}))
+                    if phase.endswith("+in-kex"):
+                        # the client's answer to the re-key is held back: the session ends here
+                        for s_ in steps:
+                            s_["meta"]["phase"] = phase
+                        return steps
                     steps.append(L.mk_step(gen, 50, L.S(gen.user, b"ssh-connection", b"password", False, b"pw"),
                                            {"r_password": 0}))
                     steps.append(L.mk_step(gen, 90, L.S(b"session", 3, 1 << 20, 1 << 15), {"r_chan": 0}))
@@ -190,6 +202,12 @@ def run(ctx):
         hit = oracle(ctx, tr)
         key = tuple((s["ptype"], s["payload"], r["cbs"], r["sent"]) for s, r in zip(tr["steps"], tr["real"]))
         ctx.case(key, hit)
+        for s_ in tr["steps"]:
+            if s_.get("op") == "server-rekey-start":
+                ctx.dist("server-in-kex-observed:%s" % s_.get("in_kex_observed"))
+                if not s_.get("in_kex_observed"):
+                    ctx.broken.append({"kind": "generator", "what": "server did not start a key re-exchange",
+                                       "detail": "the in-kex phase was not reached"})
         ph = tr["steps"][0]["meta"].get("phase")
         if ph:
             ctx.dist("phase:" + ph)
@@ -222,6 +240,8 @@ META = {
     "note": ("Trusted: Lean kernel + 3 standard axioms; the harness. The application's connection-layer callbacks and "
              "channel creation are represented by the 'delegated' flag of a step (the post-authentication connection layer "
              "is not modelled); the model assumes the server application itself opens no channel before authentication. "
+             "The in-kex phase (server-initiated re-key, client's answer held back) is driven on the real server only; the model "
+             "has no in_kex state because the dispatch does not depend on it. "
              "Phases before the end of the initial key exchange are outside this model (C09/C12: expected-packet filter)."),
     "technique": "Lean 4 proof (finite table lemma by decide, lifted to all payloads/states; invariant by induction over histories) + differential correspondence",
 }
